@@ -3119,7 +3119,8 @@ where
         let reserve = if self.is_empty() {
             iter.size_hint().0
         } else {
-            (iter.size_hint().0 + 1) / 2
+            // Rounded up, without overflowing on a hint of `usize::MAX`.
+            iter.size_hint().0 / 2 + iter.size_hint().0 % 2
         };
         self.reserve(reserve);
         iter.for_each(move |(k, v)| {
